@@ -77,12 +77,12 @@ fn main() {
             let th = flag(&kv, "thorough");
             let cov = match cmd.as_str() {
                 "c02" => cluster::c02(seed, get(&kv, "runs", 30), get(&kv, "nmax", 8), &mut tw),
-                "c03" => cluster::c03(seed, th, &mut tw),
+                "c03" => cluster::c03(seed, th, get(&kv, "maxruns", u64::MAX), &mut tw),
                 "c04" => {
                     let nl: Vec<usize> = kv.get("nlist").map(|s| s.split(',').filter_map(|x| x.parse().ok()).collect()).unwrap_or_default();
                     cluster::c04(seed, th, get(&kv, "maxruns", u64::MAX), &nl, &mut tw)
                 }
-                "c05" => cluster::c05(seed, th, &mut tw),
+                "c05" => cluster::c05(seed, th, get(&kv, "maxruns", u64::MAX), &mut tw),
                 _ => cluster::c18(seed, th, &mut tw),
             };
             tw.flush();
